@@ -1,5 +1,6 @@
 import Tv.GenDrv
 import Tv.Thm.C02
+import Tv.Lemmas.GenSim
 /-!
 # C02 — the rolling drivers regenerated from view.rs perform the model's callback sequence
 
@@ -219,6 +220,36 @@ theorem rolling_custom_iter_eq (len w : Nat) (hw : 1 ≤ w) :
       List.length_replicate] at h1
     simp [List.getElem_append, List.getElem_range']
     split <;> simp <;> omega
+/-! ## replaying a regenerated driver log on a series -/
+
+/-- the callback arguments a closure receives when the regenerated `rolling_apply_to` log is
+replayed on a series: element at the reported removed index (if any) and element at the added index -/
+def callsOfLogTo {α : Type} (xs : List α) (log : List (Nat × Option Nat × Nat)) : List (Option α × α) :=
+  log.filterMap fun ev => (xs[ev.2.2]?).map fun v => (ev.2.1.bind (xs[·]?), v)
+
+def callsOfLogIter {α : Type} (xs : List α) (log : List (Option Nat × Nat)) : List (Option α × α) :=
+  log.filterMap fun ev => (xs[ev.2]?).map fun v => (ev.1.bind (xs[·]?), v)
+
+/-- the model's callback sequence of the `*_to` shape is the replay of the regenerated driver's log -/
+theorem applyCalls_to_of_log {α : Type} (xs : List α) (w : Nat) (hw : 1 ≤ w) :
+    ∃ log, GenDrv.rolling_apply_to.run xs.length w = some log ∧ applyCalls .to xs w = callsOfLogTo xs log := by
+  refine ⟨_, rolling_apply_to_eq xs.length w (Or.inl hw), ?_⟩
+  unfold applyCalls callsOfLogTo Shape.idx
+  rw [List.filterMap_map]
+  apply List.filterMap_congr
+  rintro ⟨s, e⟩ _
+  simp only [Function.comp]
+  cases h : xs[e]? <;> simp [h]
+
+theorem applyCalls_iter_of_log {α : Type} (xs : List α) (w : Nat) (hw : 1 ≤ w) :
+    ∃ log, GenDrv.rolling_apply.run xs.length w = some log ∧ applyCalls .iter xs w = callsOfLogIter xs log := by
+  refine ⟨_, rolling_apply_iter_eq xs.length w hw, ?_⟩
+  unfold applyCalls callsOfLogIter Shape.idx
+  apply List.filterMap_congr
+  rintro ⟨s, e⟩ _
+  simp only []
+  cases h : xs[e]? <;> simp [h]
+
 theorem iterFunctions_present :
     GenDrv.iterFunctions = ["rolling_apply", "rolling2_apply", "rolling_apply_idx", "rolling2_apply_idx",
       "rolling_custom_iter"] := rfl
